@@ -11,7 +11,7 @@ def run(ctx, ps, gen_bad):
     fails, cov = seqprops.run(ctx, 'C05', ps, gen_bad)
     # crash images taken while a large file is being freed in the background (several transactions)
     n = 24 if ctx.quick else 400
-    wl = [('bigshrink', 0, 3000, True, n, ctx.seed * 4 + 1), ('bigshrink', 0, 3000, True, n, ctx.seed * 4 + 2)]
+    wl = [('bigshrink', 0, 3000, True, n, ctx.seed * 4 + 1), ('bigshrink', 0, 3000, True, n, ctx.seed * 4 + 2), ('bigshrink', 0, 3000, True, n * 2 // 3, ctx.seed * 4 + 4)]
     if not ctx.quick:
         wl += [('bigshrink', 0, 3000, True, n, ctx.seed * 4 + i) for i in (4, 5, 6, 7)] + [('crashmix', 60, 3000, True, 1500)]
     f2, c2 = crashengine.run(ctx, 'C05', wl, own=r"alloc|wf=\\S*(BitSetUnowned|FreeOwns|InodeBitFree|InodeLeak|BitClear)")
